@@ -1,8 +1,10 @@
 (** * C04 runner: histories of push/close on the Loop model (primitive floats), complete
     observable state compared after every step. *)
-From G3 Require Import Run.Harness Model.Vec Model.Segment Model.Loop.
+From G3 Require Import Run.Harness Model.NumF32 Model.Vec Model.Segment Model.Loop.
 
 Definition K := float.
+Section WithInstance.
+Context {NK : Num float}.
 Definition fl (l : list spec_float) (i : nat) : K := SF2Prim (nthsf l i).
 Definition v_of (l : list spec_float) (o : nat) : V3 K := mkV3 (fl l o) (fl l (o+1)) (fl l (o+2)).
 Fixpoint flat (vs : list (V3 K)) : list spec_float :=
@@ -43,6 +45,11 @@ Fixpoint run_hist (L : Loop K) (ops : list (N * list spec_float)) (es : list (N 
 Definition chk (c : list (N * list spec_float) * list (N * list spec_float * list spec_float * bool * list spec_float)) : N :=
   let '(ops, es) := c in N.min 8 (run_hist loop_new ops es 0).
 
+End WithInstance.
+
 Module C04.
-  Definition run := run_cases chk.
+  Definition run := run_cases (@chk NumF).
 End C04.
+Module C04f32.
+  Definition run := run_cases (@chk NumF32).
+End C04f32.
